@@ -3,6 +3,7 @@ package checks
 import (
 	"fmt"
 	"math"
+	"sort"
 	"strings"
 	"testing"
 	"time"
@@ -46,6 +47,9 @@ func (sc *scopedConn) modelAt(idx int, pwRequired bool) (db int, authorized bool
 	}
 	return
 }
+
+// userDataKeys: names under which an application may keep its per-connection entry
+var userDataKeys = []string{"token", "username", "password", "session", "user", "database", "id", "authorized", "tls", "name"}
 
 func runC13(t *testing.T, tape *sim.Tape, tier string) *Outcome {
 	o := &Outcome{}
@@ -120,7 +124,21 @@ func runC13(t *testing.T, tape *sim.Tape, tier string) *Outcome {
 		}
 		sc.rc = call.Conn
 		byRC[call.Conn] = sc
-		if v, ok := call.Conn.Load("token"); ok {
+		// the application keeps one entry per connection under a key of its own choice (one of the names an
+		// application may well use); the user data holds that entry and nothing else
+		tokenKey := userDataKeys[int(hash64(sc.c.Name)%uint64(len(userDataKeys)))]
+		var foreign []string
+		call.Conn.Range(func(k, v any) bool {
+			if ks, ok := k.(string); !ok || ks != tokenKey || sc.token == "" {
+				foreign = append(foreign, fmt.Sprintf("%v=%v", k, v))
+			}
+			return true
+		})
+		if len(foreign) > 0 {
+			sort.Strings(foreign)
+			o.violate("c13:user-data-not-the-handlers", "the user data of %s holds entries the handler never stored: %q (its own entry is %q); %s", sc.c.Name, foreign, tokenKey, hist())
+		}
+		if v, ok := call.Conn.Load(tokenKey); ok {
 			if v.(string) != sc.token {
 				o.violate("c13:user-data-foreign", "user data stored on %s reads back %q, expected %q; %s", sc.c.Name, v, sc.token, hist())
 			}
@@ -129,7 +147,7 @@ func runC13(t *testing.T, tape *sim.Tape, tier string) *Outcome {
 				o.violate("c13:user-data-lost", "user data stored on %s by an earlier call is gone; %s", sc.c.Name, hist())
 			}
 			sc.token = fmt.Sprintf("tok-%s", sc.c.Name)
-			call.Conn.Store("token", sc.token)
+			call.Conn.Store(tokenKey, sc.token)
 		}
 		cl.S.Park("?", "handler:"+call.Method, nil, nil)
 	}
@@ -284,7 +302,7 @@ func init() {
 	register(&Check{
 		ID: "C13", Bubble: true, Run: runC13,
 		Runs:   map[string]int{"quick": 16000, "thorough": 500000},
-		Rule:   "a case is one run of the full server (with or without a required password) and 2..8 connections that dial, send 2..10 (thorough ..20) requests over {SELECT valid/invalid/missing/negative/huge (the database moves iff the answer is OK), AUTH right/wrong, PING, data commands, CONFIG SET/GET incl. CONFIG SET requirepass when a password is required} and close at seeded moments (one run in eight also stops the server in the middle), interleaved at byte-delivery and handler-entry granularity with a swarm-chosen bias towards staying on one connection; inside every handler call conn.Database(), IsAuthrized(), the per-connection sync.Map token and the *redis.Conn identity are compared with that connection's own history; distinct = distinct (shape, order in which handler calls of the connections interleaved) signatures",
+		Rule:   "a case is one run of the full server (with or without a required password) and 2..8 connections that dial, send 2..10 (thorough ..20) requests over {SELECT valid/invalid/missing/negative/huge (the database moves iff the answer is OK), AUTH right/wrong, PING, data commands, CONFIG SET/GET incl. CONFIG SET requirepass when a password is required} and close at seeded moments (one run in eight also stops the server in the middle), interleaved at byte-delivery and handler-entry granularity with a swarm-chosen bias towards staying on one connection; inside every handler call conn.Database(), IsAuthrized(), the per-connection user data (exactly the one entry the handler stored, under one of ten natural key names) and the *redis.Conn identity are compared with that connection's own history; distinct = distinct (shape, order in which handler calls of the connections interleaved) signatures",
 		Real:   []string{"redis.Server accept loop, connection goroutines, SELECT/AUTH executors, redis.Conn state, connection registry"},
 		Stub:   []string{"network: simulated", "handler: recording double (parks at entry)"},
 		Assume: []string{"negative database indexes are not generated"},
